@@ -67,7 +67,7 @@ def main():
                             "-overlay", "%s=%s" % (v["file"], t)], capture_output=True, text=True)
         os.remove(t)
         return classify(v, r)
-    with cf.ThreadPoolExecutor(int(os.environ.get("TXLINT_JOBS", "6"))) as ex:
+    with cf.ThreadPoolExecutor(int(os.environ.get("TXLINT_JOBS", "12"))) as ex:
         res = list(ex.map(run, corpus))
     import shutil as _sh
     _sh.rmtree(tmp, ignore_errors=True)
